@@ -302,7 +302,7 @@ def run(tier, seed, only=None):
         nominal.update({"circulations[%d]" % i: -0.7 - 0.1 * i for i in range(npan)})
 
         run_obligations(rep, "pipeline vs reference [%s]" % cn, obs, timeout, replay=rp, levels=(1, 2), relate=[],
-                        family=lambda ob: "VLM: " + ob.meta["family"], fixed={"alpha": 3.0, "beta": 2.0, "v": 10.0, "rho": 1.1}, nominal=nominal)
+                        family=lambda ob: "VLM: " + ob.meta["family"], fixed={"alpha": (3.0, -3.0), "beta": (2.0, -2.0), "v": 10.0, "rho": 1.1}, nominal=nominal)
     aeropoint_level(rep, tier, timeout)
     rep.stubs.add("vortex kernels -> uninterpreted functions on both sides (kernel == textbook formula, antisymmetry and derivative contracts are separate obligations)")
     rep.bounds = {"cases": [c[0] for c in cfgs]}
@@ -379,7 +379,7 @@ def aeropoint_level(rep, tier, timeout):
         nominal.update({"cg[0]": 0.5, "cg[1]": 0.0, "cg[2]": 0.1, "omega[0]": 0.02, "omega[1]": 0.03, "omega[2]": -0.01})
         nominal.update({"circulations[%d]" % i: -0.7 - 0.1 * i for i in range(npan)})
         run_obligations(rep, "real AeroPoint group vs reference [%s]" % cn, obs, timeout, replay=rp, levels=(1, 2), relate=[], nominal=nominal,
-                        family=lambda ob: "AeroPoint: " + ob.meta["family"], fixed={"alpha[0]": 3.0, "beta[0]": 2.0, "v[0]": 10.0, "rho[0]": 1.1})
+                        family=lambda ob: "AeroPoint: " + ob.meta["family"], fixed={"alpha[0]": (3.0, -3.0), "beta[0]": (2.0, -2.0), "v[0]": 10.0, "rho[0]": 1.1})
 
 
 def numeric_reference(surfaces, meshv, alpha, beta, v, omega, cg):
